@@ -202,7 +202,7 @@ def check_C06(tier, replay=None):
     runs = [("MC_C06_int", {"Slice": '"int"'}), ("MC_C06_str", {"Slice": '"str"'}), ("MC_C06_other", {"Slice": '"other"'})]
     std_flow(R, "MC_C06", runs, "Trace_C06", {}, ("D20", "D21"), ["Agreement", "Emit"])
     R.extra["exhaustive"] = True
-    R.extra["anchorings_per_case"] = 3
+    R.extra["anchorings_per_case"] = "up to 5 (mid, max-1, min+1, max, min of the carrier clipped to i32; skipped where a point does not fit)"
     return finish(R, "model_checking",
                   "every (carrier, wrapper, value point, restriction set) of the abstract space of spec/Facets.tla is one TLC state; each is evaluated on the unmodified helper source under three concrete anchorings (around 0, at the carrier/i32 maximum, at the minimum); distinct by the abstract triple",
                   ["concretiser of abstract integer points and strings (harness/src/facets.rs)", "TLC", "helpers_content.rs is compiled into the harness unmodified by #[path]"])
@@ -280,7 +280,7 @@ MEMBER_DEVS = ("D08", "D09", "D10", "D11", "D12", "D13", "D14", "D23a")
 
 def check_C02(tier, replay=None):
     R = Result("C02", tier)
-    runs = [("MC_C02_" + s, {"Slice": '"%s"' % s}) for s in ("builtins", "positions", "attrs", "pairs")]
+    runs = [("MC_C02_" + s, {"Slice": '"%s"' % s}) for s in ("builtins", "positions", "nested", "attrs", "pairs")]
     std_flow(R, "MC_C02", runs, "Trace_Out", {"P": '"C02"'}, MEMBER_DEVS, ["Agreement", "Emit"])
     R.extra["exhaustive"] = True
     return finish(R, "model_checking",
@@ -303,7 +303,20 @@ def check_C08(tier, replay=None):
                   ["concretiser, syn-based abstraction", "TLC", "vocabulary tables of MC_C08"])
 
 
-CHECKS = {"C08": check_C08, "C11": check_C11, "C06": check_C06, "C15": check_C15, "C02": check_C02}
+# ------------------------------------------------------------------------- C10
+
+def check_C10(tier, replay=None):
+    R = Result("C10", tier)
+    shapes = ["two", "chain", "star", "diamond"]
+    runs = [("MC_C10_" + sh, {"Shape": '"%s"' % sh, "Small": "TRUE" if tier == "quick" else "FALSE"}) for sh in shapes]
+    std_flow(R, "MC_C10", runs, "Trace_C10", {}, ("D06", "D06b", "D07"), ["RegistryInvariant", "AllModules", "Emit"])
+    R.extra["exhaustive"] = True
+    return finish(R, "model_checking",
+                  "file sets over a collision vocabulary of six URIs (equal last segment, dots, dashes, URN): two files (all target-namespace pairs x root declarations under source prefixes a/b x nested declaration), chains and stars of three (both import orders), a diamond of four; each is one TLC state on which RegistryOK(final document) is checked, then generated by the real code; TLC evaluates the injectivity clauses on the modules and prefix/namespaces attributes of the emitted file",
+                  ["concretiser, syn-based abstraction", "TLC", "URI vocabulary with abbreviation bases in MC_C10"])
+
+
+CHECKS = {"C10": check_C10, "C08": check_C08, "C11": check_C11, "C06": check_C06, "C15": check_C15, "C02": check_C02}
 
 
 def main(argv):
